@@ -359,7 +359,7 @@ def run_faulted(w, loaded, model, contracts, plan: Plan, spec, full, instance, i
 
 
 def run(w) -> None:
-    n = 160 if w.tier == "thorough" else 16
+    n = 480 if w.tier == "thorough" else 40
     for i in range(n):
         if i % w.nshards != w.shard:
             continue
